@@ -10,6 +10,7 @@ func (g *Graph) DFS(start Vertex, cb DFSFunc) error {
 }
 
 func (g *Graph) dfs(cb DFSFunc, visited map[interface{}]struct{}, v interface{}) error {
+	verifStep()
 	/*
 	   procedure DFS(G, v) is
 	       label v as discovered
